@@ -60,9 +60,10 @@ class Reverter(object):
         else:
             setattr(self.version_parent, prop.key, None)
             value = getattr(self.obj, prop.key)
-            value = self.revert_child(
-                value, prop
-            )
+            if value is not None:
+                value = self.revert_child(
+                    value, prop
+                )
             if value:
                 setattr(self.version_parent, prop.key, value)
 
@@ -81,7 +82,11 @@ class Reverter(object):
                     if value not in values:
                         self.session.delete(value)
             else:
-                self.revert_child(getattr(self.obj, prop.key), prop)
+                child = getattr(self.obj, prop.key)
+                # The version may have had no related object (NULL foreign
+                # key, or the related entity was deleted at that time).
+                if child is not None:
+                    self.revert_child(child, prop)
 
     def revert_child(self, child, prop):
         return self.__class__(
